@@ -22,6 +22,8 @@ pub struct Ipv4Header {
     checksum: u16,
     source: Ipv4Address,
     destination: Ipv4Address,
+    // option bytes that follow the fixed part of the header (ihl > 5)
+    options: Vec<u8>,
 }
 
 #[derive(Debug)]
@@ -72,17 +74,15 @@ impl Ipv4Packet {
         let checksum = ((rawdata[off + 10] as u16) << 8) | (rawdata[off + 11] as u16);
         let source = Ipv4Address::from_bytes(&rawdata[(off + 12)..(off + 16)]);
         let destination = Ipv4Address::from_bytes(&rawdata[(off + 16)..(off + 20)]);
-        // Handle ipv4 options
-        let mut options = Vec::new();
-        if ihl > 5 {
-            let mut i: usize = 20;
-            while i < ihl as usize * 4 {
-                options.push(rawdata[off + i]);
-                i += 1;
-            }
+        // Handle ipv4 options. The header is never shorter than its fixed
+        // part, and the options it announces must be present in the data.
+        let header_len = std::cmp::max(ihl as usize * 4, IPV4_HEADER_SIZE);
+        if rawdata.len() < off + header_len {
+            return Err(PacketError::InvalidLength(rawdata.len()));
         }
+        let options = rawdata[(off + IPV4_HEADER_SIZE)..(off + header_len)].to_vec();
         //  offset of payload
-        let offset = off + ihl as usize * 4;
+        let offset = off + header_len;
 
         let header = Ipv4Header {
             version,
@@ -98,6 +98,7 @@ impl Ipv4Packet {
             checksum,
             source,
             destination,
+            options,
         };
         Ok(Self {
             header: RefCell::new(header),
@@ -325,6 +326,7 @@ impl From<&Ipv4Header> for Vec<u8> {
         bytes.extend_from_slice(&b);
         let b: Vec<u8> = (&hdr.destination).into();
         bytes.extend_from_slice(&b);
+        bytes.extend_from_slice(&hdr.options);
         bytes
     }
 }
